@@ -197,6 +197,16 @@ def r3(ctx):
     incs = [x for _, _, x in field_assignments(prog, io, TI, 'count')]
     good = len(incs) == 2 and all(P.binop('Add', P.has(P.field('count')), P.const(1))(x) for x in incs)
     ctx.check(good, 'R3', 'count:+1-per-reference', io, 'insert_outpoints counts +1 per input reference and +1 per output (2 sites)', 'count updates in insert_outpoints: %s' % [show(x) for x in incs])
+    # every reference is counted: the two increments sit under the loops (and the null-outpoint skip of the
+    # inputs) only — an output that is already cached by a block of another fork is still one more reference
+    # (seeded change C06-9: `if cache.tx_outs.contains_key(..) { continue }` in front of the output count)
+    for bb_, _, x_ in field_assignments(prog, io, TI, 'count'):
+        cs_ = cond_exprs(prog, io, bb_)
+        extra = [c_ for c_ in cs_ if not (c_[0] == 'is' and P.call('*::next', P.anything)(c_[1])) and not (c_[0] == 'hidden' and P.has(P.call('*::branch', P.anything))(c_[1]))
+                 and not P.not_(P.call('*::is_null', P.anything))(c_)]
+        ctx.check(not extra, 'R3', 'count:every-reference-counted:%s' % ('input' if any(P.not_(P.call('*::is_null', P.anything))(c_) for c_ in cs_) else 'output'), io.where(bb_),
+                  'the reference count is incremented for every input (except null outpoints) / every output of the block, whatever the cache already holds',
+                  'a reference is counted only under %s: a block whose output is already cached by a competing fork does not count, and the entry is evicted with the other fork' % [show(c_)[:80] for c_ in extra])
     zero = [e_ for b in io.blocks for st in b['stmts'] for e_ in [ex(prog, io).rvalue(st['rv'])] if (st.get('rv') or {}).get('agg') == 'adt' and st['rv']['adt'] == TI]
     ctx.check(len(zero) == 2 and all(const_val(dict(z[4]).get('count')) == 0 for z in zero), 'R3', 'count:starts-at-0', io, 'new entries start with count 0 before the increment', 'TxOutInfo initial counts: %s' % [show(dict(z[4]).get('count')) for z in zero])
     dec = [f for f in prog.fns.values() if f.short == OC + '::remove::decrement_count_and_maybe_remove']
